@@ -2963,6 +2963,17 @@ where
     where
         K::Scalar: CoordinateScalar,
     {
+        // Non-finite coordinates can never be triangulated. Refuse them up front: during the
+        // bootstrap phase nothing downstream looks at the coordinates, so a NaN vertex would
+        // otherwise be stored and make the triangulation impossible to complete.
+        if let Err(source) = crate::geometry::traits::coordinate::Coordinate::validate(vertex.point())
+        {
+            return Err(TriangulationConstructionError::FailedToAddVertex {
+                message: format!("vertex {} has invalid coordinates: {source}", vertex.uuid()),
+            }
+            .into());
+        }
+
         let mut stats = InsertionStatistics::default();
         let original_coords = *vertex.point().coords();
         let original_uuid = vertex.uuid();
